@@ -65,9 +65,11 @@ def run(c):
     wcover = json.load(open(logf + ".cover.json"))
     # vacuity of the workload side: emergency-control state, fractional trackers and extreme parameters must exist at export points
     need = dict(killSwitchRecords=1, esmStatusRecords=1, esmUserDeposits=1, esmCoolOffData=1, guardedRejections=3, vaultInterestCalcs=3,
-                lockerRewardTrackers=1, extremeParamSets=2, longGaps=1)
+                lockerRewardTrackers=1, extremeParamSets=2, longGaps=1, acceptedListMessages=4)
     low = ["%s=%d<%d" % (k, wcover.get(k, 0), v) for k, v in need.items() if wcover.get(k, 0) < v]
     vit = sum(1 for n in nodes if n["a"] == "Part" and n["args"]["comp"] == "Rewards" and n["args"]["part"] == "GetVaultInterestTracker" and n["st"]["on"] > 0)
+    if st.get("idSpacesSharedOutOfOrder", 0) == 0 or st.get("adminRejected", 0) < 20 or st.get("adminAccepted", 0) < 5 or st.get("idSpacesLive", 0) < 50:
+        low.append("id spaces / admin continuation: %s" % {k: st.get(k, 0) for k in ("idSpacesSharedOutOfOrder", "adminRejected", "adminAccepted", "idSpacesLive")})
     if not c.violations and (low or vit == 0):
         raise vlib.NoVerdict("vacuous workload: %s, round-trip points with vault interest trackers: %d" % (low, vit))
     if not c.violations and (st.get("points", 0) < 5 or st.get("nonEmptyParts", 0) < 100 or st.get("contTxOk", 0) < 10 or st.get("contIds", 0) == 0
@@ -91,7 +93,7 @@ def run(c):
         states=mc["distinct"], transitions=mc["generated"], traces_validated_against_impl=st.get("points", 0),
         model_histories_executed=mc.get("transitions_dumped"), model_counter_modes_refuted=refuted,
         trace_states=tr.get("distinct"), antecedents=st, kv_prefix_differences=kvs, differing_observation_parts=failing_parts,
-        representation_only_stores=rep_only, workload=wcover, points_with_vault_interest_trackers=vit, harness_summary=out.strip().splitlines()[-1],
+        representation_only_stores=rep_only, workload=wcover, record_fields_never_non_default=json.load(open(logf + ".neverset.json")), points_with_vault_interest_trackers=vit, harness_summary=out.strip().splitlines()[-1],
         exhaustive=False,
         rule="every history of the bounded model (<= %d operations before the round trip, <= %d after) executed on 4 real components; "
              "%d seeded workload(s) (scripted pass through all DeFi modules + %d random blocks) exported and re-imported after every %d-th block, "
